@@ -75,17 +75,48 @@ var opts = []opt{{-1, -1}, {1, -1}, {0, -1}, {-1, 1}, {-1, 0}, {1, 1}, {1, 0}, {
 
 func (o opt) included() bool { return o.skip != 1 && o.include != 0 }
 
-func (o opt) text(site int, byVar bool, vars map[string]interface{}, decls *[]string) string {
+// how a directive condition is transported
+const (
+	mLiteral      = iota // @skip(if: true)
+	mRequiredVar         // $v: Boolean!, supplied
+	mDefaultOver         // $v: Boolean = <opposite>, supplied with the intended value (the default must be ignored)
+	mDefaultUsed         // $v: Boolean = <intended>, not supplied
+	mDefaultNull         // $v: Boolean = <intended>, supplied as null
+	mMixed               // site i uses mode 2 + i%3: several defaulted variables in one operation
+	nModes
+)
+
+func (o opt) text(site int, mode int, vars map[string]interface{}, decls *[]string) string {
 	var sb strings.Builder
+	if mode == mMixed {
+		mode = mDefaultOver + site%3
+	}
 	emit := func(name string, v int) {
 		if v < 0 {
 			return
 		}
-		if byVar {
+		if mode != mLiteral {
 			vn := fmt.Sprintf("%s%d", name[:1], site)
-			if _, ok := vars[vn]; !ok {
-				vars[vn] = v == 1
-				*decls = append(*decls, fmt.Sprintf("$%s: Boolean!", vn))
+			declared := false
+			for _, d := range *decls {
+				if strings.HasPrefix(d, "$"+vn+":") {
+					declared = true
+				}
+			}
+			if !declared {
+				switch mode {
+				case mRequiredVar:
+					vars[vn] = v == 1
+					*decls = append(*decls, fmt.Sprintf("$%s: Boolean!", vn))
+				case mDefaultOver:
+					vars[vn] = v == 1
+					*decls = append(*decls, fmt.Sprintf("$%s: Boolean = %t", vn, v != 1))
+				case mDefaultUsed:
+					*decls = append(*decls, fmt.Sprintf("$%s: Boolean = %t", vn, v == 1))
+				case mDefaultNull:
+					vars[vn] = nil
+					*decls = append(*decls, fmt.Sprintf("$%s: Boolean = %t", vn, v == 1))
+				}
 			}
 			fmt.Fprintf(&sb, " @%s(if: $%s)", name, vn)
 		} else {
@@ -99,7 +130,7 @@ func (o opt) text(site int, byVar bool, vars map[string]interface{}, decls *[]st
 
 type printer struct {
 	assign []opt
-	byVar  bool
+	byVar  int
 	pruned bool
 	vars   map[string]interface{}
 	decls  []string
@@ -147,7 +178,7 @@ func (p *printer) block(ns []*node) string {
 }
 
 // print returns the query text; ok=false when pruning produced an empty selection set.
-func (t *template) print(assign []opt, byVar, pruned bool) (text string, vars map[string]interface{}, ok bool) {
+func (t *template) print(assign []opt, byVar int, pruned bool) (text string, vars map[string]interface{}, ok bool) {
 	p := &printer{assign: assign, byVar: byVar, pruned: pruned, vars: map[string]interface{}{}, used: map[string]bool{}}
 	body := p.block(t.root)
 	// fragment definitions: only those (transitively) used
@@ -212,7 +243,7 @@ func enumerate(rp *explore.Report, tier string, prefix string, ts []template, ex
 				}
 				c /= nopts
 			}
-			for _, byVar := range []bool{false, true} {
+			for byVar := 0; byVar < nModes; byVar++ {
 				*k++
 				if !rp.Mine(*k) {
 					continue
@@ -307,7 +338,7 @@ func runFed(rp *explore.Report, tier string) {
 
 func init() {
 	reg.Register(&reg.Harness{Property: "C19", Name: "c19/gateway", Level: "exploration", Run: runFed,
-		Rule: "the same enumeration through the federation gateway: 5 templates (fields on different services, same-alias selections, a fragment spread twice, union member fragments, a two-hop plan) x 9^3 directive assignments x literal/variable, over a two-service split of the fedfix domain; oracle: gateway(annotated) == gateway(pruned)"})
+		Rule: "the same enumeration through the federation gateway: 5 templates (fields on different services, same-alias selections, a fragment spread twice, union member fragments, a two-hop plan) x 9^3 directive assignments x the six condition transports, over a two-service split of the fedfix domain; oracle: gateway(annotated) == gateway(pruned)"})
 	reg.Register(&reg.Harness{Property: "C19", Name: "c19/directives", Level: "exploration", Run: run,
-		Rule: "14 query templates (fields, same-alias objects/leaves, inline fragments, one named fragment spread twice in different and in the same selection set, union member fragments incl. the same member twice, spreads under unions, nested fragments, aliases+arguments) x every assignment of {none, skip T/F, include T/F, both in all four combinations} to 3 directive sites x condition by literal or by variable; oracle: Execute(annotated) == Execute(textually pruned query); non-trivial = at least one directive present"})
+		Rule: "14 query templates (fields, same-alias objects/leaves, inline fragments, one named fragment spread twice in different and in the same selection set, union member fragments incl. the same member twice, spreads under unions, nested fragments, aliases+arguments) x every assignment of {none, skip T/F, include T/F, both in all four combinations} to 3 directive sites x condition transport {literal, required variable, variable with a default that the supplied value overrides, default used (variable absent), default used (variable null), a mix of the last three over the sites}; oracle: Execute(annotated) == Execute(textually pruned query); non-trivial = at least one directive present"})
 }
